@@ -7,7 +7,7 @@
 (* calls for the 26-letter alphabet.  Here TLC explores the same script    *)
 (* machine under a VIEW that keeps only the flags the protocol branches on *)
 (* (objective live?, Powell iteration pending?, monitor empty / one / more *)
-(* records, evaluation monitor on?, exit requested?, termination holding?, *)
+(* records, evaluation monitor on? shorter than the counter? exit requested?, termination holding?, *)
 (* stopped?, each limit unset / default-from-now / reached / not reached,  *)
 (* scripted termination set, armed exit), so breadth-first search finds    *)
 (* for EVERY reachable abstract state a shortest script reaching it, up to *)
@@ -23,13 +23,16 @@ LimClassG(t) == IF t.limG = None THEN 0 ELSE IF t.limG = Star THEN 1 ELSE IF Gen
 LimClassE(t) == IF t.limE = None THEN 0 ELSE IF t.limE = Star THEN 1 ELSE IF t.fcalls >= t.limE THEN 2
                 ELSE IF t.fcalls + t.np >= t.limE THEN 3 ELSE 4
 
+(* the evaluation monitor holds fewer records than the solver has made evaluations (it was installed late or   *)
+(* swapped with new=True): its length and the evaluation counter are then different numbers                   *)
+EmShort(t) == t.evmon /\ t.nem < t.fcalls
 CoverView == <<s.kind, s.live, s.dec, Min2(s.nsm), s.evmon, s.exitreq, s.term, s.stopped, s.mono,
-               LimClassG(s), LimClassE(s), at, armed>>
+               LimClassG(s), LimClassE(s), at, armed, EmShort(s)>>
 
 (* coarser view for the quick tier: limits only as unset / reached / not reached, no script-side state *)
 Lim3(c) == IF c \in {0, 1} THEN 0 ELSE IF c = 2 THEN 1 ELSE 2
 CoarseView == <<s.kind, s.live, s.dec, Min2(s.nsm), s.evmon, s.exitreq, s.term, s.stopped,
-                Lim3(LimClassG(s)), Lim3(LimClassE(s)), armed > 0>>
+                Lim3(LimClassG(s)), Lim3(LimClassE(s)), armed > 0, EmShort(s)>>
 
 EmitCover == PrintT(<<"@@", ToJson([script |-> script, kind |-> s.kind])>>)
 =============================================================================
